@@ -200,10 +200,13 @@ def find_best_match(abbr: str, items: list, min_score=0, partial_match=False):
     matched_item = None
 
     for item in items:
-        score = calculate_score(abbr, get_scoring_part(item), partial_match)
+        part = get_scoring_part(item)
+        score = calculate_score(abbr, part, partial_match)
 
-        if score == 1:
+        if score == 1 and abbr.lower() == part.lower():
             # direct hit, no need to look further
+            # NB: a fuzzy score of unequal strings may also be exactly 1.0,
+            # it must not hide an item with the very same name
             return item
 
         if score and score >= max_score:
